@@ -4,7 +4,7 @@
    correspondence run executes (Update/UpdateDefs.v: step / send_client / ...). *)
 From LV Require Import Region.RegionDefs Region.RegionProofs Update.UpdateDefs Update.UpdateFacts
      Update.UpdateProofs0 Update.UpdateProofs Update.UpdateThms Update.NewFB Update.Slices Update.Trans
-     Update.StateLevel Update.Audit02.
+     Update.Life Update.StateLevel Update.Audit02 Update.NoCopy Update.SliceInv Update.InvAll.
 Local Open Scope Z_scope.
 
 (* ---------------------------------------------------------------- the invariant
@@ -185,12 +185,42 @@ Proof. exact no_copy_region_no_copyrect. Qed.
    at most  floor(H / slice) + 2  (>= ceil(H/slice) + 1)  rounds, wherever the sweep currently is
    (progressiveSliceY arbitrary >= 0).  The framebuffer height fits a C int. *)
 Theorem C02_slices_converge : forall st c,
-  Inv st -> In c (sClients st) -> NoSoftCursor st c -> sH st <= INT_MAX -> 0 < sSliceH st ->
-  no_pix (cC c) -> cUseNewFB c && cNewFBPending c = false -> cScaled c = None -> 0 <= cSliceY c ->
+  InvAll st -> In c (sClients st) -> NoSoftCursor st c -> sH st <= INT_MAX -> 0 < sSliceH st ->
+  no_pix (cC c) -> cUseNewFB c && cNewFBPending c = false -> cScaled c = None ->
   exists c', slice_rounds st c (Z.to_nat (sH st / sSliceH st + 2)) = Some c' /\
              no_pix (cM c') /\
              forall x y, inS (sW st) (sH st) x y -> pic_get (cPic c') x y = fb_for st c x y.
-Proof. exact slices_converge_nocursor. Qed.
+Proof. exact slices_converge_all. Qed.
+
+(* ---------------------------------------------------------------- the full invariant
+   InvAll = Inv + TransOK (translation selected for the current server format) + NoCopyInv (no copy pending for a
+   client without CopyRect) + SliceOK (0 <= progressiveSliceY) + NoDangling (C16): holds initially, kept by every
+   operation, hence in every state reachable with well-formed inputs *)
+Theorem C02_full_invariant_initial : forall W H bpp, 0 < W -> 0 < H -> InvAll (init_state W H bpp).
+Proof. exact init_invall. Qed.
+
+Theorem C02_full_invariant_step : forall st o st' out,
+  InvAll st -> op_ok st o -> step st o = Some (st', out) -> InvAll st'.
+Proof. exact step_invall. Qed.
+
+Theorem C02_full_invariant_run : forall ops st st',
+  InvAll st -> run_ok st ops -> run st ops = Some st' -> InvAll st'.
+Proof. exact run_invall. Qed.
+
+(* history level: a client whose useCopyRect flag is off - it never advertised CopyRect, or its last SetEncodings
+   did not name it - is never sent a CopyRect rectangle, after ANY history (rfbScheduleCopyRegion gives it pixels,
+   SetEncodings turns a pending copy into modified pixels: 690d81d, b141ef8) *)
+Theorem C02_nocopy_invariant_step : forall st o st' out,
+  NoCopyInv st -> step st o = Some (st', out) -> NoCopyInv st'.
+Proof. exact step_nocopy. Qed.
+
+Theorem C02_copyrect_only_if_advertised : forall W H bpp ops st c c' n rects,
+  0 < W -> 0 < H -> run_ok (init_state W H bpp) ops ->
+  run (init_state W H bpp) ops = Some st ->
+  In c (sClients st) -> cUseCopy c = false ->
+  send_client st c = Some (c', Some (n, rects)) ->
+  existsb is_wcopy rects = false.
+Proof. exact copyrect_only_if_advertised. Qed.
 
 (* ---------------------------------------------------------------- the deferral timer *)
 (* deferring never loses an update: whatever deferUpdateTime and the clock (gettimeofday) are - also
